@@ -1545,7 +1545,7 @@ class EOM:
         tempAtMinimum = minRes.x
         TMultiplier = max(Tplus / tempAtMinimum, 1.2)
         # If this is a detonation solution, finds a solution below TLowerBound
-        if abs(self.hydrodynamics.Tnucl - Tplus) < 1e-10:
+        if abs(self.hydrodynamics.Tnucl - Tplus) < 1e-10 * self.hydrodynamics.Tnucl:
             TMultiplier = min(Tminus / tempAtMinimum, 0.8)
 
         testTemp = tempAtMinimum * TMultiplier
